@@ -38,7 +38,8 @@ from gverif.props import c09
 PID = 'C08'
 LEVEL = 'exploration'
 RULE = ('families a-e of the module doc, each enumerated completely: (a) all 1,114,112 code '
-        'points x 3 embeddings (+ IGNORE for the bare character); (b) all short strings over a '
+        'points x 3 embeddings (quick: DATA, + IGNORE for the bare character; thorough: DATA, '
+        'IGNORE, AUX); (b) all short strings over a '
         '15-character hostile alphabet x 3-4 tags; (c) full product of single entries and all '
         'ordered entry lists (with repetition) over a 14-entry menu, unsorted and sorted dump; '
         '(d) every text of C09 families A and D accepted by the real parser; (e) the lists of (c) '
@@ -522,6 +523,13 @@ def setup(tier, seed, base):
     sigcap.setup()
 
 
+def a_tags(form, tier):
+    """Tags used in family a for embedding ``form`` (0 = bare character)."""
+    if tier == 'thorough':
+        return ('DATA', 'IGNORE', 'AUX')
+    return ('DATA', 'IGNORE') if form == 0 else ('DATA',)
+
+
 def _singles_for(tagsel, seed):
     for s in single_specs(seed):
         if (s[0] == tagsel) or (tagsel == 'IGNORE+TS' and s[0] in ('IGNORE', 'TIMESTAMP')):
@@ -543,14 +551,14 @@ def run_shard(spec, tier, seed, scratch):
                     if p.startswith('/'):
                         stats.counters['a_skipped_absolute'] += 1
                         continue
-                    for tag in (('DATA', 'IGNORE') if fi == 0 else ('DATA',)):
+                    for tag in a_tags(fi, tier):
                         s = ('IGNORE', p) if tag == 'IGNORE' else (tag, p, 0, ())
                         bad = check_specs([s], False, stats)
                         n_eval += 1
                         if bad:
                             _emit(stats, bad, {'family': 'a', 'specs': [s], 'sort': False})
             for fi in range(3):
-                for tag in (('DATA', 'IGNORE') if fi == 0 else ('DATA',)):
+                for tag in a_tags(fi, tier):
                     stats.case(('a', fi, tag, blk >> 12), True)
             stats.counters['a_roundtrips'] += n_eval
         if lo == 0:
@@ -671,7 +679,8 @@ def finish(total, tier):
     for f in 'abcde':
         if not total.counters.get('family_' + f):
             errs.append(f'vacuity: family {f} did not run')
-    want_a = 0x110000 * 4 - 2          # '/' alone is skipped for DATA and IGNORE
+    # '/' alone is skipped for every tag
+    want_a = 0x110000 * 4 - 2 if tier == 'quick' else 0x110000 * 9 - 3
     if total.counters.get('a_roundtrips') != want_a:
         errs.append(f'family a executed {total.counters.get("a_roundtrips")} round trips, '
                     f'expected {want_a}')
@@ -687,7 +696,9 @@ def finish(total, tier):
 
 def extra_evidence(total, tier):
     return {'space': {
-        'a': '0x110000 code points x {c, a+c+b, \\x4+c+1} as DATA + c as IGNORE ("/" alone skipped)',
+        'a': '0x110000 code points x {c, a+c+b, \\x4+c+1} x tags '
+             + ('DATA (+ IGNORE for the bare c)' if tier == 'quick' else 'DATA, IGNORE, AUX')
+             + ' ("/" alone skipped)',
         'b': f'15-character alphabet, length 1..{3 if tier == "quick" else 4}, not starting with "/", '
              'tags DATA/IGNORE/AUX (+DIST when no "/")',
         'c': f'{len(single_specs(0))} single entries x sort in (False, True); all sequences of '
